@@ -494,3 +494,70 @@ class TrueHistory(Oracle):
                     if lastup[k][p] != j:
                         fails.append("ls -l of %s v%d attributes %r to v%d, it last changed in v%d" % (oid, k, p, lastup[k][p], j))
         return fails
+
+
+class ReadBack(Oracle):
+    """C10: every string rocfl accepted is in inventory.json exactly as accepted — as read by Python's
+    json (a conforming parser) and as read by rocfl itself — and no accepted staging operation leaves
+    an object that later commands cannot open or list."""
+    name = "read-back"
+
+    def __init__(self):
+        self.checks = 0
+        self.cdir = {}
+
+    def after(self, ctx, st, resp):
+        oid = oid_of(st)
+        if st["kind"] != "mut" or not oid:
+            return []
+        fails = []
+        op = st["op"]
+        if op == "new" and ok(resp):
+            if "cdir" in st.get("meta", {}):
+                self.cdir[oid] = st["meta"]["cdir"]
+            else:
+                self.cdir.pop(oid, None)
+        if op == "purge":
+            self.cdir.pop(oid, None)
+        accepted = ok(resp) or resp.startswith("err:copyMoveErrors")
+        r = ctx.live.ask("staged %s" % hx(oid))
+        if not ok(r) and not r.startswith("err:notFound"):
+            fails.append("after `%s` (%s) the staged object can no longer be opened: %s" % (op, resp.split(" ")[0], unhx(r.split(" ")[1]).decode("utf8", "replace") if " " in r else r))
+        for q in ("ls -", "lsstaged -"):
+            l = ctx.live.ask(q)
+            if not ok(l) or jbody(l)["errors"]:
+                fails.append("after `%s` (%s) `%s` reports errors: %s" % (op, resp.split(" ")[0], q, l[:200]))
+        if op in ("commit", "upgrade") and ok(resp):
+            m = ctx.live.ask("ver %s -" % hx(oid))
+            if not ok(m):
+                fails.append("after `%s` ok the committed object cannot be opened: %s" % (op, m[:200]))
+            for q in ("validate %s 0" % hx(oid),):
+                pass
+        if ok(r):
+            self.checks += 1
+            v = jbody(r)
+            p = v["root"].replace("$D", ctx.dir)
+            try:
+                inv = json.loads(open(os.path.join(p, "inventory.json"), "rb").read().decode("utf-8"))
+            except Exception as e:
+                return fails + ["after `%s`: the staged inventory.json is not valid JSON for a conforming parser: %s" % (op, e)]
+            if inv.get("id") != oid:
+                fails.append("inventory id %r is not the accepted id %r" % (inv.get("id"), oid))
+            if v["id"] != oid:
+                fails.append("rocfl reads the id back as %r, accepted was %r" % (v["id"], oid))
+            if oid in self.cdir and inv.get("contentDirectory", "content") != self.cdir[oid]:
+                fails.append("contentDirectory %r is not the accepted %r" % (inv.get("contentDirectory"), self.cdir[oid]))
+            head = inv["versions"][inv["head"]]
+            mine = sorted(pp for ps in head["state"].values() for pp in ps)
+            if mine != sorted(v["state"]):
+                fails.append("logical paths as a JSON parser reads them %s differ from what rocfl reads back %s" % (mine[:5], sorted(v["state"])[:5]))
+            # a single external file copied to an explicit new name must appear under exactly that name
+            if accepted and op == "cpx" and ok(resp):
+                t = st["h"].split(" ")
+                srcs, dst = t[4:], unhx(t[3]).decode()
+                if len(srcs) == 1 and dst.strip("/") and not dst.endswith("/"):
+                    srcp = os.path.join(ctx.dir, "src", unhx(srcs[0]).decode())
+                    want = dst.strip("/")
+                    if os.path.isfile(srcp) and want not in v["state"] and not any(k.startswith(want + "/") for k in v["state"]):
+                        fails.append("cp to %r was accepted but the staged view has no such path: %s" % (want, sorted(v["state"])[:6]))
+        return fails
